@@ -140,6 +140,12 @@ def real_hostile(ctx):
 
 
 def run(ctx, build):
+    # a serial spelled in dozens of ways, boards sharing an image, closing the server: the boot server keeps answering and
+    # holds one volume per board (the resource tier of C09, run here because such requests must not wear the server out)
+    from props import c09 as _c09
+    _c09.boot_resources(ctx)
+    if ctx.violations:
+        return
     real_hostile(ctx)
     R = ctx.try_runner('Tftp')
     rng = ctx.rng
